@@ -3,3 +3,5 @@ contract module resolves to the working tree under verification and never to the
 from pyvc import instrument as _instrument
 
 _instrument._ensure_repo_on_path()
+
+from . import replayers as _replayers  # noqa: E402,F401  (registers the native replayers)
